@@ -13,9 +13,8 @@ From Verif Require Import Lib.Base Model.Cover Proofs.CoverBase Proofs.CoverStru
 
 (* ---- transparency ------------------------------------------------------------------- *)
 (* For every interpreter (all primitives arbitrary), every program without counter statements
-   whose non-empty action bodies / END blocks are not made of empty blocks only (guard_ok: the
-   shape of F-C18-3, a defect of the compiler; the empty action {} is accepted since the repair of
-   F-C18-1), both modes,
+   (no restriction on the shape of action bodies or END blocks since the repairs of F-C18-1 in
+   cover.annotateStmts and of F-C18-3 in the compiler), both modes,
    every fuel and start state: the annotated program and the original end with the same outcome,
    the same user-visible state (output, variables, exit status) and the same ghost trace; if
    one runs out of fuel so does the other. *)
@@ -25,7 +24,7 @@ Theorem C18_transparent :
     (next_record : U -> nrec U V) (print_record : U -> U * option V) (skip_file : U -> U)
     (files : ftable) (XA XB : Type) (bumpA : cmode -> Z -> XA -> XA) (bumpB : cmode -> Z -> XB -> XB)
     (mode : cmode) (P : program E),
-  nocov_prog P = true -> guard_ok P = true ->
+  nocov_prog P = true ->
   forall n u x xb tr,
   let rA := run E U K V I ev_start ev_resume truthy nil_v forin_init forin_next next_record print_record skip_file
               XA bumpA n (fst (annotate files mode P)) (mkst U XA u x tr) in
@@ -36,29 +35,32 @@ Theorem C18_transparent :
 Proof. exact transparent. Qed.
 Print Assumptions C18_transparent.
 
-(* the statement without the guard *)
+(* the full statement of the design: formerly refuted by {} (F-C18-1) and { { } } (F-C18-3), now a
+   theorem.  Remaining premises: nocov_prog P (the parsed program contains no counter statement:
+   true of every parser output) and the built-in hypothesis that no primitive touches __COVER. *)
 Definition C18_transparent_full_statement : Prop := transparent_full_statement.
-
-(* F-C18-3: `{ { } }` -- compiles to no code (run as print $0) until a counter is inserted *)
-Theorem C18_transparent_refuted_only_blocks : ~ C18_transparent_full_statement.
-Proof. exact transparent_refuted_block_action. Qed.
-Print Assumptions C18_transparent_refuted_only_blocks.
+Theorem C18_transparent_full : C18_transparent_full_statement.
+Proof. exact transparent_full. Qed.
+Print Assumptions C18_transparent_full.
 
 (* formerly F-C18-1 (repaired in cover.annotateStmts): an empty action {} is annotated to itself
-   and prints nothing in both runs; it now satisfies the guard, so C18_transparent covers it *)
+   and prints nothing in both runs; C18_transparent covers it *)
 Example C18_empty_action_transparent :
   snd (Toy.run_toy unit (fun _ _ x => x) Toy.prog_empty_action tt) = ONormal unit /\
   s_u _ _ (fst (Toy.run_toy unit (fun _ _ x => x) Toy.prog_empty_action tt)) = (0%nat, 0%nat) /\
   s_u _ _ (fst (Toy.run_toy cover_array cover_bump (fst (annotate [] MSet Toy.prog_empty_action)) cover_empty)) = (0%nat, 0%nat)
   /\ p_actions (fst (annotate [] MSet Toy.prog_empty_action)) = [mkaction [] (Some [])].
 Proof. exact toy_empty_action. Qed.
-(* what the remaining witness does, and that the guard excludes it *)
-Example C18_witness_only_blocks :
-  s_u _ _ (fst (Toy.run_toy unit (fun _ _ x => x) Toy.prog_block_action tt)) = (0%nat, 2%nat) /\
+(* formerly F-C18-3 (repaired in compiler.go, 2d90d40): { { } } gets a Nop like {}: nothing is printed,
+   plainly and annotated; END { { } } alone makes the input be read in both runs (records left 2 -> 0) *)
+Example C18_only_blocks_transparent :
+  s_u _ _ (fst (Toy.run_toy unit (fun _ _ x => x) Toy.prog_block_action tt)) = (0%nat, 0%nat) /\
   s_u _ _ (fst (Toy.run_toy cover_array cover_bump (fst (annotate [] MSet Toy.prog_block_action)) cover_empty)) = (0%nat, 0%nat).
 Proof. exact toy_block_action. Qed.
-Example C18_witnesses_excluded : guard_ok Toy.prog_empty_action = true /\ guard_ok Toy.prog_block_action = false.
-Proof. exact toy_guards. Qed.
+Example C18_end_only_blocks_transparent :
+  s_u _ _ (fst (Toy.run_toy unit (fun _ _ x => x) Toy.prog_end_blocks tt)) = (0%nat, 0%nat) /\
+  s_u _ _ (fst (Toy.run_toy cover_array cover_bump (fst (annotate [] MSet Toy.prog_end_blocks)) cover_empty)) = (0%nat, 0%nat).
+Proof. exact toy_end_blocks. Qed.
 
 (* ---- exact counts ------------------------------------------------------------------- *)
 (* Count mode.  Statements are identified by their start position (hypothesis: no two statements
@@ -72,7 +74,7 @@ Theorem C18_count_exact :
     (truthy : V -> bool) (nil_v : V) (forin_init : E -> U -> I) (forin_next : E -> I -> U -> option (I * U))
     (next_record : U -> nrec U V) (print_record : U -> U * option V) (skip_file : U -> U)
     (files : ftable) (XB : Type) (bumpB : cmode -> Z -> XB -> XB) (P : program E),
-  nocov_prog P = true -> guard_ok P = true -> NoDup (map snd (tagged_prog P)) ->
+  nocov_prog P = true -> NoDup (map snd (tagged_prog P)) ->
   let A := fst (annotate files MCount P) in
   let B := snd (annotate files MCount P) in
   forall n u xb,
@@ -93,7 +95,7 @@ Theorem C18_set_exact :
     (truthy : V -> bool) (nil_v : V) (forin_init : E -> U -> I) (forin_next : E -> I -> U -> option (I * U))
     (next_record : U -> nrec U V) (print_record : U -> U * option V) (skip_file : U -> U)
     (files : ftable) (XB : Type) (bumpB : cmode -> Z -> XB -> XB) (P : program E),
-  nocov_prog P = true -> guard_ok P = true -> NoDup (map snd (tagged_prog P)) ->
+  nocov_prog P = true -> NoDup (map snd (tagged_prog P)) ->
   let A := fst (annotate files MSet P) in
   let B := snd (annotate files MSet P) in
   forall n u xb,
@@ -220,9 +222,9 @@ Definition ex_prog : program unit :=
     [[]]
     [[SSimple KReturn tt (mkpos 4 16) (mkpos 4 23)]].
 Example C18_ex_hyps :
-  nocov_prog ex_prog = true /\ guard_ok ex_prog = true /\ NoDup (map snd (tagged_prog ex_prog)) /\ pos_ok_prog ex_prog.
+  nocov_prog ex_prog = true /\ NoDup (map snd (tagged_prog ex_prog)) /\ pos_ok_prog ex_prog.
 Proof.
-  split; [reflexivity|]. split; [reflexivity|]. split.
+  split; [reflexivity|]. split.
   - cbn. repeat constructor; cbn; intuition discriminate.
   - unfold pos_ok_prog, ex_prog, pos_ok_stmts, pos_ok_body. cbn.
     repeat (first [apply conj | apply Forall_cons | apply Forall_nil]);
